@@ -89,6 +89,17 @@ func LoadVariants(verif string) ([]Variant, error) {
 			return nil, fmt.Errorf("variants.json: %v", err)
 		}
 	}
+	// behaviour-preserving refactorings: every property's check must stay silent on each
+	refs, _ := filepath.Glob(filepath.Join(verif, "selftest", "refactors", "*.diff"))
+	sort.Strings(refs)
+	for _, rf := range refs {
+		rel, _ := filepath.Rel(verif, rf)
+		base := strings.TrimSuffix(filepath.Base(rf), ".diff")
+		for i := 1; i <= 20; i++ {
+			pid := fmt.Sprintf("C%02d", i)
+			vs = append(vs, Variant{ID: "REF-" + base + "-" + pid, Property: pid, Rule: "*", Expect: "silent", Patch: rel, Note: "behaviour-preserving refactoring " + base})
+		}
+	}
 	metas, _ := filepath.Glob(filepath.Join(verif, "seeded", "*", "meta.json"))
 	sort.Strings(metas)
 	for _, m := range metas {
